@@ -92,8 +92,8 @@ type chanSt struct {
 	capN   int
 	buf    []any
 	closed bool
-	epoch  int
-	ps, pr []pref // pending senders / receivers (rebuilt at every scheduling point)
+	probed int
+	ps, pr []pref // pending senders / receivers
 	nameT  *thread // canonical name: first-touch thread id + that thread's op count
 	nameN  int
 	last   uint64
@@ -112,6 +112,7 @@ type Config struct {
 	Prefix      []int // choices to replay (only points with >1 alternative are recorded)
 	Horizon     int   // max transitions, default 20000
 	Trace       bool  // record Events
+	FastBase    bool  // base schedule only: take the first enabled alternative without enumerating the others (no choice points recorded)
 	Fp          bool  // compute state fingerprints at every recorded point
 	Seen        map[uint64]int // state fingerprint -> max remaining budget explored (pruning); nil = off
 	Bound       int            // deviation budget (used only with Seen)
@@ -129,7 +130,7 @@ type Execution struct {
 	chans    map[uintptr]*chanSt
 	objLast  map[any]uint64
 	finished chan struct{}
-	epoch    int
+	cancelEpoch int
 	dead     bool
 	fail     string
 
@@ -173,7 +174,7 @@ func Run(cfg Config, body func()) *Execution {
 	if cfg.Horizon == 0 {
 		cfg.Horizon = 20000
 	}
-	ex := &Execution{cfg: cfg, chans: map[uintptr]*chanSt{}, objLast: map[any]uint64{}, finished: make(chan struct{}, 1), Outcome: "ok"}
+	ex := &Execution{cancelEpoch: 1, cfg: cfg, chans: map[uintptr]*chanSt{}, objLast: map[any]uint64{}, finished: make(chan struct{}, 1), Outcome: "ok"}
 	cur = ex
 	ex.main = ex.newThread(nil, "main")
 	ex.startThread(ex.main, body)
@@ -341,7 +342,42 @@ func hstr(s string) uint64 {
 // the scheduler has executed it.
 func (t *thread) point(o *op) {
 	t.pending = o
-	t.ex.schedule(t)
+	ex := t.ex
+	for ci, c := range o.cases {
+		m := ex.chanOf(c, t)
+		if c.send {
+			m.ps = append(m.ps, pref{t, ci})
+		} else {
+			m.pr = append(m.pr, pref{t, ci})
+		}
+	}
+	ex.schedule(t)
+}
+
+// unregister removes t's pending channel cases from the waiter lists.
+func (ex *Execution) unregister(t *thread, o *op) {
+	for _, c := range o.cases {
+		m := c.m
+		if m == nil {
+			continue
+		}
+		if c.send {
+			m.ps = dropThread(m.ps, t)
+		} else {
+			m.pr = dropThread(m.pr, t)
+		}
+	}
+}
+
+func dropThread(l []pref, t *thread) []pref {
+	j := 0
+	for _, p := range l {
+		if p.t != t {
+			l[j] = p
+			j++
+		}
+	}
+	return l[:j]
 }
 
 type alt struct {
@@ -367,15 +403,28 @@ func (ex *Execution) chanOf(c *chanCase, t *thread) *chanSt {
 
 func (m *chanSt) name() string { return fmt.Sprintf("ch(%s/%d)", m.nameT.id, m.nameN) }
 
+// closed: modelled close, or the REAL channel was closed by uninstrumented code. Real closes
+// only happen inside context cancellation, which always passes through NoteCancel, so the
+// real channel is probed at most once per cancellation epoch.
 func (ex *Execution) closed(c *chanCase, m *chanSt) bool {
 	if m.closed {
 		return true
 	}
-	if c.probe != nil && c.probe() {
-		m.closed = true
-		return true
+	if c.probe != nil && m.probed != ex.cancelEpoch {
+		m.probed = ex.cancelEpoch
+		if c.probe() {
+			m.closed = true
+			return true
+		}
 	}
 	return false
+}
+
+// NoteCancel must be called after any context cancellation performed outside WithCancel's wrapper.
+func NoteCancel() {
+	if ex := cur; ex != nil {
+		ex.cancelEpoch++
+	}
 }
 
 // recvReady: can a receive on this case complete now (including by rendezvous with a parked sender)?
@@ -383,7 +432,7 @@ func (ex *Execution) recvReady(c *chanCase, m *chanSt, self *thread, withRendezv
 	if len(m.buf) > 0 || ex.closed(c, m) {
 		return true
 	}
-	if withRendezvous && m.capN == 0 && m.epoch == ex.epoch {
+	if withRendezvous && m.capN == 0 {
 		for _, p := range m.ps {
 			if p.t != self {
 				return true
@@ -391,29 +440,6 @@ func (ex *Execution) recvReady(c *chanCase, m *chanSt, self *thread, withRendezv
 		}
 	}
 	return false
-}
-
-// index rebuilds, for every channel some live thread is waiting on, the lists of pending senders and receivers.
-func (ex *Execution) index() {
-	ex.epoch++
-	for _, t := range ex.live {
-		if t.pending == nil {
-			continue
-		}
-		for ci, c := range t.pending.cases {
-			m := ex.chanOf(c, t)
-			if m.epoch != ex.epoch {
-				m.epoch = ex.epoch
-				m.ps = m.ps[:0]
-				m.pr = m.pr[:0]
-			}
-			if c.send {
-				m.ps = append(m.ps, pref{t, ci})
-			} else {
-				m.pr = append(m.pr, pref{t, ci})
-			}
-		}
-	}
 }
 
 func (ex *Execution) altsOf(t *thread, out []alt) []alt {
@@ -465,11 +491,9 @@ func (ex *Execution) altsOf(t *thread, out []alt) []alt {
 				}
 				continue
 			}
-			if m.epoch == ex.epoch {
-				for _, p := range m.pr {
-					if p.t != t {
-						out = append(out, alt{t: t, caseIdx: i, partner: p.t, pcase: p.ci})
-					}
+			for _, p := range m.pr {
+				if p.t != t {
+					out = append(out, alt{t: t, caseIdx: i, partner: p.t, pcase: p.ci})
 				}
 			}
 		} else {
@@ -519,7 +543,28 @@ func (ex *Execution) stateFp() uint64 {
 func (ex *Execution) schedule(self *thread) {
 	var buf [16]alt
 	alts := buf[:0]
-	ex.index()
+	if ex.cfg.FastBase {
+		if self != nil {
+			alts = ex.altsOf(self, alts)
+		}
+		if len(alts) == 0 {
+			for pass := 0; pass < 2 && len(alts) == 0; pass++ {
+				for _, t := range ex.live {
+					if t == self || t.pending == nil || t.env != (pass == 1) {
+						continue
+					}
+					if alts = ex.altsOf(t, alts); len(alts) > 0 {
+						break
+					}
+				}
+			}
+		}
+		if len(alts) > 1 {
+			alts = alts[:1]
+		}
+		ex.scheduleTail(self, alts)
+		return
+	}
 	// canonical order: the thread that was running first, then creation order
 	if ex.cfg.BaseOrder == 1 {
 		for i := len(ex.live) - 1; i >= 0; i-- {
@@ -545,6 +590,10 @@ func (ex *Execution) schedule(self *thread) {
 			alts = ex.altsOf(t, alts)
 		}
 	}
+	ex.scheduleTail(self, alts)
+}
+
+func (ex *Execution) scheduleTail(self *thread, alts []alt) {
 	live := len(ex.live)
 	if live > ex.MaxLive {
 		ex.MaxLive = live
@@ -624,6 +673,7 @@ func (ex *Execution) schedule(self *thread) {
 func (ex *Execution) apply(a alt, pick, nalts int) {
 	t := a.t
 	o := t.pending
+	ex.unregister(t, o)
 	t.pending = nil
 	t.nops++
 	o.chosen = a.caseIdx
@@ -653,6 +703,7 @@ func (ex *Execution) apply(a alt, pick, nalts int) {
 			if a.partner != nil {
 				u := a.partner
 				uo := u.pending
+				ex.unregister(u, uo)
 				uo.chosen = a.pcase
 				uo.cases[a.pcase].setRcv(c.val, true)
 				u.pending = &op{kind: kResume}
@@ -901,6 +952,7 @@ func WithCancel(parent context.Context) (context.Context, context.CancelFunc) {
 			t.point(&op{kind: kCancel, label: "cancel"})
 		}
 		cancel()
+		NoteCancel()
 	}
 }
 
